@@ -264,8 +264,14 @@ Definition C08_table_Tr_full_statement : Prop :=
   forall m, m < 8 -> forall st, pushed KTr [PInt (Z.of_N m)] st = [OTextRenderMode m].
 Lemma table_Tr : forall m, enum_okb text_mode_codes m = true -> forall st, pushed KTr [PInt (Z.of_N m)] st = [OTextRenderMode m].
 Proof. intros m H [l c]. unfold pushed. cbn [add push1 pushes]. rewrite (enum_ok _ _ _ H). reflexivity. Qed.
-Lemma table_Tr_refuted : ~ C08_table_Tr_full_statement.
-Proof. intros H. specialize (H 7 eq_refl st0). vm_compute in H. discriminate H. Qed.
+(** … and all eight exist (C08-f, fixed: TextMode has the variants of modes 6 and 7) *)
+Lemma table_Tr_full : C08_table_Tr_full_statement.
+Proof.
+  intros m Hm st. apply table_Tr.
+  assert (In m (seqN 0 8)) as Hin by (apply seqN_In; cbn; lia).
+  assert (forallb (enum_okb text_mode_codes) (seqN 0 8) = true) as Hall by (vm_compute; reflexivity).
+  rewrite forallb_forall in Hall. apply Hall. exact Hin.
+Qed.
 
 (** Table 59: after h the current point is the start of the subpath; the builder's `last` stays at the
     end point of the last segment, so a following v is expanded from the wrong point *)
